@@ -20,6 +20,12 @@ def run(ctx):
         q = dict(**{"from": FROM5}, where=wheres[w], list=los[lo]["list"], group=[], order=los[lo]["order"],
                  limit=lims[lm]["limit"], offset=lims[lm]["offset"], style=n % 8)
         cases.append(dict(db={"t5": tables[t]}, q=q, _t=t))
+    # tables with NULLs behind rows without (conditions with = and != on the nullable columns, ordering only on the column
+    # that is never NULL): a NULL must come back as NULL and must not satisfy `col = value`
+    tn, wn, ln = sets["tablesnull5"], sets["wheresnull5"], sets["listordersnull5"]
+    for n, (t, w, lo) in enumerate(semlib.cover_product(rng, [tn, wn, ln], N[ctx.tier] // 6)):
+        q = dict(**{"from": FROM5}, where=wn[w], list=ln[lo]["list"], group=[], order=ln[lo]["order"], limit=-1, offset=-1, style=n % 8)
+        cases.append(dict(db={"t5": tn[t]}, q=q, _t=("null", t)))
     # larger tables (12-60 rows drawn from the rows TLC enumerated), stored at page capacities 3/3 so that the table's
     # tree has three or more levels: "any number of rows" must not depend on how rows are laid out over pages
     pool_rows = []
